@@ -120,6 +120,8 @@ def run_path(mod, params, prefix, opts):
 def _run_path(mod, params, prefix, opts):
     c = Ctx(prefix, timeout_ms=opts['timeout_ms'], max_decisions=opts.get('max_decisions', 4000))
     c.deadline = time.time() + opts.get('path_wall_s', 60)
+    if opts.get('second_solver_every'):
+        c.options['second_solver_every'] = opts['second_solver_every']
     core.set_ctx(c)
     h = HSym(c, params)
     status = 'ok'
@@ -405,7 +407,8 @@ def run_check(prop, tier, seed=0, only=None, nproc=None, serial=False, verbose=T
     per_cfg = max(20.0, total_budget / max(1, len(configs)))
     opts_base = {'timeout_ms': 5000 if tier == 'quick' else 30000,
                  'sample_every': 7 if tier == 'quick' else 3, 'concolic': True,
-                 'path_wall_s': 25 if tier == 'quick' else 300}
+                 'path_wall_s': 25 if tier == 'quick' else 300,
+                 'second_solver_every': 0 if tier == 'quick' else 40}
     opts_base.update(getattr(mod, 'OPTS', {}).get(tier, {}))
     per_config = []
     violations = []
@@ -462,6 +465,8 @@ def run_check(prop, tier, seed=0, only=None, nproc=None, serial=False, verbose=T
     missing = [c for c in required if not all_notes.get(c)] if not only else []
     exp_labels = getattr(mod, 'EXPECTED_LABELS', [])
     missing_labels = [lab for lab in exp_labels if lab not in all_labels] if not only else []
+    if all_notes.get('second-solver:disagree'):
+        harness_errors.append(('second-solver', ['cvc5 found %d final queries satisfiable that z3 reported unsat' % all_notes['second-solver:disagree']]))
     if missing:
         harness_errors.append(('vacuity', ['required classes never witnessed: %s' % missing]))
     if missing_labels:
@@ -603,6 +608,7 @@ def build_evidence(mod, prop, tier, seed, per_config, violations, known_hits, ha
             'interesting_classes': all_notes,
             'inconclusive_paths': inconclusive,
             'concolic_crosscheck': conc,
+            'second_solver_cvc5': {k.split(':')[1]: v for k, v in all_notes.items() if k.startswith('second-solver:')},
             'spline_max_dev_vs_fitpack': stubs.SPLINE_DEV[0],
             'known_findings_hit': {kid: n for kid, (k, n) in known_hits.items()},
             'harness_errors': [[l, w] for l, w in harness_errors],
